@@ -6,6 +6,10 @@ package llrp
 //
 //   request:  d  <Type> <capextra> <hex|->     decode; the decoder gets a slice with len = #bytes and
 //             dm <Type> <capextra> <hex|->     cap = len+capextra (slack is zero-filled); dm also measures allocation
+//             m  <Type> <declared> <r|b> <hex|->  message-level entry point: Message{Header{payloadLen: declared, typ},
+//                                                 payload}.UnmarshalTo(new(Type)); payload r = io.LimitReader over the bytes
+//                                                 present (what a handler gets), b = already buffered; allocation always measured
+//             limit                              answers MaxBufferedPayloadSz
 //   answer:   ok|err|panic:<line>|hang  <mutated 0|1>  <bytes allocated or -1>  <ns>
 //
 // The decoder runs in its own goroutine with recover(); a watchdog (VERIF_C11_WATCHDOG_MS, default 2000)
@@ -20,6 +24,7 @@ import (
 	"encoding"
 	"encoding/hex"
 	"fmt"
+	"io"
 	"os"
 	"runtime"
 	"strconv"
@@ -64,6 +69,27 @@ func c11Decode(u encoding.BinaryUnmarshaler, data []byte, done chan<- c11Result)
 	done <- c11Result{"ok", ns}
 }
 
+// c11MsgUnmarshaler routes UnmarshalBinary(data) of the supervised goroutine to Message.UnmarshalTo:
+// the `data` it is given is the bytes present; the declared length and payload kind are fields.
+type c11MsgEntry struct {
+	v        encoding.BinaryUnmarshaler
+	declared uint32
+	buffered bool
+}
+
+func (e *c11MsgEntry) UnmarshalBinary(present []byte) error {
+	m := Message{Header: Header{version: Version1_0_1, id: 1, payloadLen: e.declared}}
+	if in, ok := e.v.(Incoming); ok {
+		m.typ = in.Type()
+	}
+	if e.buffered {
+		m.payload = bytes.NewBuffer(present)
+	} else {
+		m.payload = io.LimitReader(bytes.NewReader(present), int64(e.declared))
+	}
+	return m.UnmarshalTo(e.v)
+}
+
 func TestVerifC11(t *testing.T) {
 	lines, w, closeOut := verifIO(t)
 	defer closeOut()
@@ -76,6 +102,20 @@ func TestVerifC11(t *testing.T) {
 	timer := time.NewTimer(time.Hour)
 	for _, line := range lines {
 		f := strings.Fields(line)
+		if len(f) == 1 && f[0] == "limit" {
+			fmt.Fprintf(w, "limit %d\n", MaxBufferedPayloadSz)
+			continue
+		}
+		var entry *c11MsgEntry
+		if len(f) == 5 && f[0] == "m" {
+			d, err := strconv.ParseUint(f[2], 10, 32)
+			if err != nil || (f[3] != "r" && f[3] != "b") {
+				fmt.Fprintln(w, "bad request")
+				continue
+			}
+			entry = &c11MsgEntry{declared: uint32(d), buffered: f[3] == "b"}
+			f = []string{"dm", f[1], "0", f[4]}
+		}
 		if len(f) != 4 || (f[0] != "d" && f[0] != "dm") {
 			fmt.Fprintln(w, "bad request")
 			continue
@@ -103,6 +143,10 @@ func TestVerifC11(t *testing.T) {
 		data := buf[:len(raw):len(buf)]
 		keep := append([]byte(nil), buf...)
 		u := mk()
+		if entry != nil {
+			entry.v = u
+			u = entry
+		}
 		done := make(chan c11Result, 1)
 		var m0, m1 runtime.MemStats
 		if f[0] == "dm" {
